@@ -456,9 +456,13 @@ func genPrintCase(r *Rng, ver string, thorough bool) toks {
 			}
 		}
 	}
-	if r.Intn(60) == 0 {
-		// a last range further out: the count margin becomes 5 characters wide (the model's layout is computed in
-		// unary arithmetic, which keeps positions of a million and more out of reach here)
+	if L >= 0 && r.Intn(8) == 0 {
+		// a finite Number and a last range far beyond its digits: nothing is shown there, but the count margin is
+		// as wide as the far end demands (6, 7, 8, 10 and 19 characters)
+		F := r.Pick([]int{99995, 999990, 1000000, 12345678, 1000000005, MaxInt - 40})
+		rng = append(rng, [2]int{F, F + r.Range(1, 12)})
+	} else if r.Intn(60) == 0 {
+		// digits that far out cost the model's layout (unary arithmetic) the whole distance: 10 000 is the practical limit
 		F := r.Pick([]int{9995, 10000})
 		rng = append(rng, [2]int{F, F + r.Range(1, 12)})
 	}
